@@ -68,7 +68,9 @@ def gen_cases(engine, rng, tier):
     out = []
     for _ in range(n):
         cfg = 'relay=%s;ip=%s;databytes=0;qq=ok,ok,ok,ok' % (rng.choice(['none', 'none', 'listed']), rng.choice(['v4', 'v4', 'v6']))
-        chunks = [rng.choice([b'HELO c.example.net\r\n', b'EHLO c.example.net\r\n', b'HELO x.example.com\r\n'])]
+        chunks = [rng.choice([b'HELO c.example.net\r\n', b'EHLO c.example.net\r\n', b'HELO x.example.com\r\n', b'EHLO c.example.net\r\n',
+                              # address literals as HELO name: IPv4, not IPv4 (the text is written into the trace header as sent)
+                              b'EHLO [192.0.2.99]\r\n', b'EHLO [IPv6:2001:db8::1]\r\n', b'HELO [300.1.2.3]\r\n'])]
         for _ in range(rng.choice([1, 1, 2, 3])):
             chunks.append(session_gen.mail(rng, rng.choice(['ok', 'ok', 'bounce', 'size', 'body', 'mixed'])))
             for _ in range(rng.choice([1, 2, 3, 5])):
